@@ -86,7 +86,7 @@ class Spec:
         self.T = sum(self.base.values()) + self.sum_prev
         # a cap binds on the whole quotas
         self.explicit_binds = [c for c in self.v if c in self.cap and self.w[c] > self.cap[c] and self.w[c] > self.p[c]]
-        self.house_binds = [c for c in self.v if c not in self.cap and self.w[c] > self.n and self.w[c] > self.p[c]]
+        self.house_binds = [c for c in self.v if self.w[c] > self.n and self.w[c] > self.p[c]]
 
     def cls(self):
         if self.explicit_binds:
@@ -99,10 +99,12 @@ class Spec:
         """withdraw `over` seats from the smallest margins v - q*j over all awarded seats (c, j); a level set
         that does not fit is a Tie.  None when there are not enough awarded seats to withdraw."""
         over = self.T - self.n
-        seats = sorted((self.v[c] - self.q * j, c) for c in self.v
-                       for j in range(self.p[c] + 1, self.p[c] + self.base[c] + 1))
-        if over > len(seats):
+        if over > sum(self.base.values()) or over > 5000:
             return None
+        # only the top `over` seats of a party can be withdrawn
+        seats = sorted((self.v[c] - self.q * j, c) for c in self.v
+                       for j in range(max(self.p[c] + 1, self.p[c] + self.base[c] - max(over, 0) + 1),
+                                      self.p[c] + self.base[c] + 1))
         res = {c: b for c, b in self.base.items() if b > 0}
         if over <= 0:
             return res
@@ -227,7 +229,9 @@ def oracle(case, obs):
     if ws is None:            # more previous gains than seats: nothing can be withdrawn; not specified
         return out
     if ws[0] == 'err':
-        if not (is_err and obs.get('err') == ws[1]):
+        if is_err and obs.get('err') != ws[1]:
+            out.append(('raises:' + str(obs.get('err')), f'{ws[1]} expected'))
+        elif not is_err:
             out.append(('policy_error', f'VotingSystemError expected, got {obs}'))
         return out
     if is_err:
@@ -279,16 +283,17 @@ def oracle(case, obs):
 
 
 def signature(case, clause):
-    """known findings are scoped by (op, input class, clause)"""
+    """known findings are scoped by (op, input class, symptom group); in the plain class the clause itself"""
     if case['op'] == 'quota':
         return f"quota:{clause}"
     sp = Spec(case)
     c = sp.cls() if sp.in_scope else 'out_of_scope'
-    if c == 'plain' and case['quota'].startswith('const:') and clause == 'policy_error':
-        return f"{case['op']}:constant_quota:{clause}"
     if c == 'plain':
+        if case['quota'].startswith('const:') and clause == 'raises:AttributeError':
+            return f"{case['op']}:constant_quota:{clause}"
         return f"{case['op']}:{clause}"
-    return f"{case['op']}:{c}:{clause}"
+    group = 'raises' if clause.startswith('raises:') else 'wrong_seats'
+    return f"{case['op']}:{c}:{group}"
 
 
 # ------------------------------------------------------------------------------------------------
@@ -441,7 +446,10 @@ def _random_case(rng):
         for i in range(m):
             if rng.random() < 0.5:
                 mx[i] = rng.randint(0, 5)
-    return _mk(rng.choice(['qd', 'lr', 'lr']), vals, n, _rand_quota(rng), rng.random() < 0.5,
+    qn = _rand_quota(rng)
+    if qn.startswith('const:') and max(vals) > 10 ** 6:       # keep the number of whole quotas small
+        qn = 'const:' + num_str(Fraction(max(vals), rng.randint(1, 8)) + rng.choice([0, 0, 1]))
+    return _mk(rng.choice(['qd', 'lr', 'lr']), vals, n, qn, rng.random() < 0.5,
                rng.choice(POLICIES), prev, mx)
 
 
